@@ -1804,8 +1804,8 @@ theorem c12_shape_Roster_GenerateBigNaryTree :
 
 theorem c12_shape_Roster_GenerateNaryTreeWithRoot :
     Shapes.tree_Roster_GenerateNaryTreeWithRoot =
-   ["assign:rootIndex:=0", "if:(root!=nil)", "ro.Search",
-     "assign:rootIndex,_=ro.Search(root.ID)", "if:(rootIndex<0)", "return:nil", "else",
+   ["assign:rootIndex:=0", "if:(root!=nil)", "root.GetID", "ro.searchByKey",
+     "assign:rootIndex,_=ro.searchByKey(root.GetID())", "if:(rootIndex<0)", "return:nil", "else",
      "assign:root=ro.List[0]", "NewTreeNode", "assign:rootNode:=NewTreeNode(rootIndex,root)",
      "assign:parents:=conv{rootNode}", "assign:children:=conv{}", "assign:i:=1",
      "for:(i<len(ro.List)){", "assign:index:=((i+rootIndex)%len(ro.List))",
